@@ -22,7 +22,7 @@ fn mk_req(chaddr: &[u8], clientid: Option<Vec<u8>>, serverip: Ipv4Addr, mtype: u
         pkt: dhcppkt::Dhcp {
             op: dhcppkt::OP_BOOTREQUEST,
             htype: dhcppkt::HWTYPE_ETHERNET,
-            hlen: 6,
+            hlen: chaddr.len() as u8,
             hops: 0,
             xid: 1,
             secs: 0,
@@ -390,7 +390,14 @@ fn drain_case(&(ref t, outer): &(Node, bool)) -> (u64, String, Vec<Violation>) {
     let mut n = 0u64;
     let mut shape = String::new();
     crate::common::clock::set_secs(crate::ehist::NOW0 as u64);
-    for mac in [M1, M2, M3] {
+    // hardware addresses asked with: the three of the model, and two that merely BEGIN like a
+    // reserved one or are the beginning of it (8 octets, EUI-64 style, and 5 octets): a
+    // match-hardware-address condition holds for the address it names and no other, so they are
+    // served like M3, which no condition names
+    let mut longer = M1.to_vec();
+    longer.extend_from_slice(&[0xaa, 0xbb]);
+    let asked: Vec<(Vec<u8>, [u8; 6])> = vec![(M1.to_vec(), M1), (M2.to_vec(), M2), (M3.to_vec(), M3), (longer, M3), (M1[..5].to_vec(), M3)];
+    for (chaddr, mac) in asked {
         let inherited: Option<BTreeSet<u8>> = if outer {
             let named = t.all_added();
             Some((2u8..=30).filter(|a| !named.contains(a)).collect())
@@ -404,7 +411,7 @@ fn drain_case(&(ref t, outer): &(Node, bool)) -> (u64, String, Vec<Violation>) {
         for i in 0..40u16 {
             n += 1;
             // distinct clients that all carry this hardware address: distinct client identifiers
-            let req = mk_req(&mac, Some(vec![0xc1, (i >> 8) as u8, i as u8]), serverip, 1);
+            let req = mk_req(&chaddr, Some(vec![0xc1, (i >> 8) as u8, i as u8]), serverip, 1);
             match panics::catch(|| dhcp::handle_pkt(&mut p, &req, Default::default(), &g)) {
                 Err(pi) => {
                     vs.push(Violation::new("handler-panic", format!("handle_pkt panicked: {} at {}", pi.msg, panics::short_loc(&pi.loc)), case.clone()).sig("loc", panics::short_loc(&pi.loc)));
@@ -413,7 +420,7 @@ fn drain_case(&(ref t, outer): &(Node, bool)) -> (u64, String, Vec<Violation>) {
                 Ok(Ok(r)) => {
                     let o = r.yiaddr.octets();
                     if o[..3] != [192, 0, 2] || !got.insert(o[3]) {
-                        vs.push(Violation::new("drain-anomaly", format!("client {i} with hardware address {} was given {} (outside the universe or already handed to another client)", mac_str(&mac), r.yiaddr), case.clone()).sig("part", "drain"));
+                        vs.push(Violation::new("drain-anomaly", format!("client {i} with hardware address {} was given {} (outside the universe or already handed to another client)", crate::common::util::hex(&chaddr), r.yiaddr), case.clone()).sig("part", "drain"));
                         break;
                     }
                 }
@@ -436,7 +443,7 @@ fn drain_case(&(ref t, outer): &(Node, bool)) -> (u64, String, Vec<Violation>) {
             vs.push(
                 Violation::new(
                     "drained-pool",
-                    format!("hardware address {}: drained addresses 192.0.2.{:?}, documented pool 192.0.2.{:?} (missing {:?}, extra {:?}; drain ended with {err})", mac_str(&mac), got_cmp, want_cmp, missing, extra),
+                    format!("hardware address {}: drained addresses 192.0.2.{:?}, documented pool 192.0.2.{:?} (missing {:?}, extra {:?}; drain ended with {err})", crate::common::util::hex(&chaddr), got_cmp, want_cmp, missing, extra),
                     case.clone(),
                 )
                 .sig("part", "drain")
@@ -444,7 +451,7 @@ fn drain_case(&(ref t, outer): &(Node, bool)) -> (u64, String, Vec<Violation>) {
             );
         }
         if want.is_some() && !err.contains("NoAssignableAddress") && !got.is_empty() && got.len() < 40 {
-            vs.push(Violation::new("drain-end", format!("drain for {} ended with {err} instead of the no-address error", mac_str(&mac)), case.clone()).sig("part", "drain"));
+            vs.push(Violation::new("drain-end", format!("drain for {} ended with {err} instead of the no-address error", crate::common::util::hex(&chaddr)), case.clone()).sig("part", "drain"));
         }
     }
     (n, format!("drain{}:{shape}", if outer { "+outer" } else { "" }), vs)
@@ -531,7 +538,7 @@ pub fn run(tier: &str, replay: Option<Value>) -> ! {
     rep.cov("long_lived_depth", ll_depth);
     rep.cov("evaluations", n1 + n2 + n3);
     rep.cov("distinct_nontrivial", classes.len() as u64);
-    rep.cov("rule", "addresses: every prefix length 16..30 (thorough 10..30) x written with/without host bits x server address {first, last, middle host, outside} x reserved address {none, first, last, second host}: build_default_config's pool vs hosts - server - reserved. drain: policy trees over 192.0.2.0/28 (root: apply-subnet /28 /29 /30, every apply-range in a 6-address window, 1-2 apply-address, two address sources in one policy in both key orders; 0-2 children matching hardware addresses M1/M2 with address/range/subnet/no pool, a condition-less wrapper, condition-less groups nested in a condition-less group before/after a matching sibling, a depth-3 reservation; overlapping sibling pools skipped) x 3 hardware addresses, each drained with fresh client identifiers through handle_pkt until the no-address error. histories: every history of exactly long_lived_depth operations over {4 configurations with different pools / two interfaces / a reservation, 2 clients, DISCOVER/REQUEST with and without a named address, 2-3 clock steps} on ONE never-reopened Pool, every reply's address judged against the pool configured for that client on that interface at that step. distinct = shape classes");
+    rep.cov("rule", "addresses: every prefix length 16..30 (thorough 10..30) x written with/without host bits x server address {first, last, middle host, outside} x reserved address {none, first, last, second host}: build_default_config's pool vs hosts - server - reserved. drain: policy trees over 192.0.2.0/28 (root: apply-subnet /28 /29 /30, every apply-range in a 6-address window, 1-2 apply-address, two address sources in one policy in both key orders; 0-2 children matching hardware addresses M1/M2 with address/range/subnet/no pool, a condition-less wrapper, condition-less groups nested in a condition-less group before/after a matching sibling, a depth-3 reservation; overlapping sibling pools skipped) x 5 hardware addresses (the 3 of the conditions' alphabet, an 8-octet one beginning like a reserved one, a 5-octet beginning of it), each drained with fresh client identifiers through handle_pkt until the no-address error. histories: every history of exactly long_lived_depth operations over {4 configurations with different pools / two interfaces / a reservation, 2 clients, DISCOVER/REQUEST with and without a named address, 2-3 clock steps} on ONE never-reopened Pool, every reply's address judged against the pool configured for that client on that interface at that step. distinct = shape classes");
     rep.cov("exhaustive", true);
     rep.cov("parts", json!({"addresses_configs": n1, "policy_trees": trees_n, "drain_requests": n2}));
     rep.cov("classes_sample", json!(classes.iter().take(12).collect::<Vec<_>>()));
